@@ -47,7 +47,7 @@ theorem inv_createRow (s : St) (w i t : Nat) (h : Inv s) : Inv (createRow s w i 
   by_cases ha : accepted w i t = true
   · simp only [ha, if_true]
     refine ⟨?_, ?_⟩
-    · show ((s.rows ++ [{ idx := s.next, window := w, interval := i, type := t }]).map (·.idx)).Nodup
+    · show ((s.rows ++ [({ idx := s.next, window := w, interval := i, type := t } : Row)]).map (fun r => r.idx)).Nodup
       rw [List.map_append, List.nodup_append]
       refine ⟨h.nodup, by simp, ?_⟩
       intro a ha b hb
@@ -70,7 +70,7 @@ theorem inv_step (s : St) (op : Op) (h : Inv s) : Inv (step s op).1 := by
   | edit k w i =>
     by_cases hc : (hasRow s k && accepted w i 1) = true
     · simp only [step, hc, if_true]
-      exact inv_setRow s k _ (fun _ => rfl) h _
+      exact inv_setRow s k (fun r => { r with window := w, interval := i, type := 1 }) (fun _ => rfl) h _
     · simp only [step, hc]; exact h
   | delete k =>
     by_cases hc : hasRow s k = true
@@ -78,8 +78,8 @@ theorem inv_step (s : St) (op : Op) (h : Inv s) : Inv (step s op).1 := by
       refine ⟨?_, fun r hr => h.below r (List.mem_filter.1 hr).1⟩
       exact h.nodup.sublist ((List.filter_sublist).map _)
     · simp only [step, hc]; exact h
-  | legacyInterval k => exact inv_setRow s k _ (fun _ => rfl) h _
-  | legacyType k => exact inv_setRow s k _ (fun _ => rfl) h _
+  | legacyInterval k => exact inv_setRow s k (fun r => { r with window := 0, interval := 0 }) (fun _ => rfl) h _
+  | legacyType k => exact inv_setRow s k (fun r => { r with type := 0 }) (fun _ => rfl) h _
   | restart => exact ⟨h.nodup, h.below⟩
 
 theorem inv_init : Inv init := ⟨by simp [init], by intro r hr; cases hr⟩
